@@ -28,6 +28,31 @@ type Instance interface {
 	Key() string
 }
 
+// Replayer is optionally implemented by instances that can re-apply an already
+// validated operation without comparing observations (faster path replays).
+type Replayer interface {
+	Replay(op int)
+}
+
+// fastRun replays an already validated path.
+func fastRun(sys *System, ops []int) (inst Instance, bad string) {
+	inst = sys.New()
+	defer func() {
+		if r := recover(); r != nil {
+			bad = fmt.Sprintf("nondeterminism: replaying a validated history panicked: %v", r)
+		}
+	}()
+	rp, fast := inst.(Replayer)
+	for _, op := range ops {
+		if fast {
+			rp.Replay(op)
+		} else if m := inst.Apply(op); m != "" {
+			return inst, "nondeterminism: replaying the same history gave " + m
+		}
+	}
+	return inst, ""
+}
+
 // System describes one configuration to explore.
 type System struct {
 	Name     string
@@ -186,10 +211,10 @@ func Explore(sys *System, deadline time.Time, shard, nshards int) *Result {
 			if !first {
 				// replay the path on a fresh instance
 				var m string
-				m, _, cur = Run(sys, path)
+				cur, m = fastRun(sys, path)
 				if m != "" {
 					// nondeterministic system: same path, different result
-					record("nondeterminism: replaying the same history gave "+m, append([]int{}, path...))
+					record(m, append([]int{}, path...))
 					return
 				}
 			}
@@ -230,7 +255,65 @@ func Explore(sys *System, deadline time.Time, shard, nshards int) *Result {
 	}
 	inst := sys.New()
 	if sys.Merge {
+		// breadth-first search over merged states: all states within MaxDepth steps, or the fixpoint
 		seen[inst.Key()] = true
+		res.States++
+		frontier := [][]int{{}}
+		for depth := 0; depth < sys.MaxDepth && len(frontier) > 0; depth++ {
+			var next [][]int
+			for _, p := range frontier {
+				var cur Instance
+				for op := range sys.Alphabet {
+					if depth == 0 && nshards > 1 && op%nshards != shard {
+						continue
+					}
+					if res.Transitions&0xff == 0 && time.Now().After(deadline) {
+						res.Complete, res.Fixpoint = false, false
+						return res
+					}
+					if cur == nil {
+						var m string
+						cur, m = fastRun(sys, p)
+						if m != "" {
+							record(m, append([]int{}, p...))
+							break
+						}
+					}
+					if !cur.Enabled(op) {
+						continue
+					}
+					res.Transitions++
+					np := append(append(make([]int, 0, len(p)+1), p...), op)
+					m := applySafe(cur, op)
+					if m != "" {
+						record(m, np)
+						cur = nil
+						continue
+					}
+					k := cur.Key()
+					cur = nil
+					if seen[k] {
+						continue
+					}
+					seen[k] = true
+					res.States++
+					next = append(next, np)
+					if depth+1 > res.MaxDepth {
+						res.MaxDepth = depth + 1
+					}
+				}
+			}
+			if len(next) == 0 {
+				res.Histories += int64(len(frontier))
+			}
+			if len(res.Samples) < 3 && len(next) > 0 {
+				res.Samples = append(res.Samples, strings.Join(names(sys, next[len(next)/2]), " ; "))
+			}
+			frontier = next
+		}
+		res.Histories += int64(len(frontier))
+		res.Fixpoint = len(frontier) == 0
+		return res
 	}
 	res.States++
 	dfs(inst, 0)
